@@ -98,7 +98,7 @@ def enumerate_faults(ctx, base, entry, rng, tier, stats):
 def work(ctx, tier):
     stats = {}
     rng = common.rng_for(ctx, "main")
-    nbase = (120 if tier == "quick" else 3000) // ctx.nshards
+    nbase = (320 if tier == "quick" else 4000) // ctx.nshards
     for k, base in enumerate(base_scenarios(rng, nbase)):
         ents = rig.ENTRIES if tier != "quick" else common.pick_entries(rng, rig.SYNC_ENTRIES, 3) + common.pick_entries(rng, rig.ASYNC_ENTRIES, 4)
         for entry in ents:
